@@ -26,6 +26,17 @@ def mk_param(dic2p, **kw):
             sf = item.source
             q = Prog.from_sourcefile(sf, 'driver')
             q.text = sf.to_fortran()
+            # a symbol that survives under its name keeps its declared kind: the values it can hold (and the kind in
+            # which expressions over it are evaluated) lie outside the value bounds of the solver obligation
+            before = {r.name.lower(): {v.name.lower(): str(v.type.kind).lower() for v in r.variables}
+                      for m in p.sourcefile.modules for r in m.subroutines}
+            for m in sf.modules:
+                for r in m.subroutines:
+                    for v in r.variables:
+                        old = before.get(r.name.lower(), {}).get(v.name.lower())
+                        if old is not None and old != str(v.type.kind).lower():
+                            raise AssertionError(f'{r.name}: kind of {v.name} changed from {old} to {v.type.kind} '
+                                                 f'({"named constant" if v.type.parameter else "variable"})')
             return q
         finally:
             shutil.rmtree(d, ignore_errors=True)
@@ -81,6 +92,18 @@ end module pm
 """
 
 
+# the parametrised dimension has a non-default integer kind
+SRC8 = SRC.replace('''  subroutine driver(n, m, flag, a, b)
+    integer, intent(in) :: n, m, flag''', '''  subroutine driver(n, m, flag, a, b)
+    integer(kind=8), intent(in) :: n
+    integer, intent(in) :: m, flag''').replace('''  subroutine kernel1(n, m, a)
+    integer, intent(in) :: n, m''', '''  subroutine kernel1(n, m, a)
+    integer(kind=8), intent(in) :: n
+    integer, intent(in) :: m''').replace('''    integer, intent(in) :: n_new, m, flag''', '''    integer(kind=8), intent(in) :: n_new
+    integer, intent(in) :: m, flag''').replace('mod(n_new, 2)', 'mod(n_new, 2_8)')
+assert SRC8.count('kind=8') == 3
+
+
 def cases():
     out = []
     variants = [('n3', {'n': 3}, {}), ('n2-m2', {'n': 2, 'm': 2}, {}), ('n3-by-value', {'n': 3}, {'replace_by_value': True}),
@@ -95,5 +118,12 @@ def cases():
         sizes = {'n': 3, 'm': 2}
         sizes.update(dic)
         sizes.update({f'parametrised_{k}': v for k, v in dic.items()})
-        out.append(Case(f'matching/{name}', SRC, 'driver', [sizes], fn, 'parametrise'))
+        out.append(Case(f'matching/{name}', SRC, 'driver', [sizes], fn, 'parametrise', raise_is_violation=('AssertionError',)))
+    for name, dic, kw in [('kind8-n3', {'n': 3}, {}), ('kind8-m2-n3', {'m': 2, 'n': 3}, {})]:
+        fn = mk_param(dic, **kw)
+        fn.src = SRC8
+        sizes = {'n': 3, 'm': 2}
+        sizes.update(dic)
+        sizes.update({f'parametrised_{k}': v for k, v in dic.items()})
+        out.append(Case(f'matching/{name}', SRC8, 'driver', [sizes], fn, 'parametrise', raise_is_violation=('AssertionError',)))
     return out
